@@ -5,7 +5,7 @@ use pgp::composed::{decrypt_session_key_with_password, Deserializable, Decryptio
 use pgp::crypto::aead::{AeadAlgorithm, ChunkSize};
 use pgp::crypto::hash::HashAlgorithm;
 use pgp::crypto::sym::SymmetricKeyAlgorithm;
-use pgp::packet::{Packet, PacketParser, PacketTrait, PublicKeyEncryptedSessionKey, Signature, SignatureConfig, SignatureType, Subpacket, SubpacketData, SymKeyEncryptedSessionKey};
+use pgp::packet::{Packet, PacketParser, PublicKeyEncryptedSessionKey, Signature, SignatureConfig, SignatureType, Subpacket, SubpacketData, SymKeyEncryptedSessionKey};
 use pgp::ser::Serialize;
 use pgp::types::{KeyDetails, KeyVersion, Password, StringToKey, Tag, Timestamp};
 use vh::keys::{gen_key, gen_key_with_subkey, RecKey};
@@ -18,11 +18,22 @@ fn packets_of(bytes: &[u8]) -> Vec<Packet> { PacketParser::new(bytes).flatten().
 /// build a signature from a configuration without going through the signing checks: the recording key
 /// tells us the digest the library computes while verifying; None when the library refuses before hashing
 fn forge(cfg: &SignatureConfig, key: &RecKey, data: &[u8]) -> Option<Signature> {
-    let dummy = key.sign_raw(&[0u8; 32])?;
-    let probe = Signature::from_config(cfg.clone(), [0, 0], dummy).ok()?;
-    key.clear();
-    let _ = guarded(|| probe.verify(key, data));
-    let digest = key.last()?;
+    // RFC 9580 5.2.4 for a document signature, computed here: salt (v6) || data || trailer
+    use sha2::{Digest, Sha256};
+    let v6 = cfg.version() == pgp::packet::SignatureVersion::V6;
+    let mut hashed = Vec::new();
+    for sp in &cfg.hashed_subpackets { sp.to_writer(&mut hashed).ok()?; }
+    let mut h = Sha256::new();
+    if let pgp::packet::SignatureVersionSpecific::V6 { salt } = &cfg.version_specific { h.update(salt); }
+    h.update(data);
+    let mut t = vec![if v6 { 6u8 } else { 4 }, u8::from(cfg.typ), u8::from(cfg.pub_alg), u8::from(cfg.hash_alg)];
+    if v6 { t.extend((hashed.len() as u32).to_be_bytes()); } else { t.extend((hashed.len() as u16).to_be_bytes()); }
+    t.extend(&hashed);
+    let n = t.len() as u32;
+    h.update(&t);
+    h.update([if v6 { 6u8 } else { 4 }, 0xff]);
+    h.update(n.to_be_bytes());
+    let digest = h.finalize().to_vec();
     let sb = key.sign_raw(&digest)?;
     Signature::from_config(cfg.clone(), [digest[0], digest[1]], sb).ok()
 }
@@ -77,7 +88,7 @@ fn main() {
         let Ok(psk) = decrypt_session_key_with_password(&sk, &pw) else { continue; };
         let raw: Vec<u8> = match &psk { PlainSessionKey::V3_4 { key, .. } => key.as_ref().to_vec(), PlainSessionKey::V6 { key } => key.as_ref().to_vec(), PlainSessionKey::V5 { key } => key.as_ref().to_vec() };
         let container = ps.last().unwrap().to_bytes().unwrap();
-        let rawk: pgp::types::RawSessionKey = raw.clone().into();
+        let rawk: pgp::composed::RawSessionKey = raw.clone().into();
         // good ESKs of every kind for this session key
         let mk = |kind: &str| -> Option<Vec<u8>> {
             match kind {
@@ -332,6 +343,6 @@ impl ForeignBacksig for pgp::packet::SecretKey {
         let sub = target.secret_subkeys.first()?;
         let mut cfg = if self.version() == KeyVersion::V6 { SignatureConfig::v6(Rng::new(9), SignatureType::KeyBinding, self.algorithm(), self.hash_alg()).ok()? } else { SignatureConfig::v4(SignatureType::KeyBinding, self.algorithm(), self.hash_alg()) };
         cfg.hashed_subpackets = vec![Subpacket::regular(SubpacketData::SignatureCreationTime(Timestamp::now())).ok()?, Subpacket::regular(SubpacketData::IssuerFingerprint(self.fingerprint())).ok()?];
-        cfg.sign_primary_key_binding(self, &self.public_key(), &Password::empty(), &target.primary_key.public_key(), &sub.key.public_key()).ok()
+        cfg.sign_primary_key_binding(self, &self.public_key(), &Password::empty(), &target.primary_key.public_key()).ok()
     }
 }
